@@ -10,6 +10,7 @@ package evalfilter
 import (
 	"context"
 	"fmt"
+	"sort"
 	"strings"
 	"sync"
 
@@ -173,8 +174,15 @@ func (e *Eval) Prepare(flags ...[]byte) error {
 	if len(e.instructions) > 65535 {
 		return fmt.Errorf("the script is too large: %d bytes of bytecode, at most 65535 are supported", len(e.instructions))
 	}
-	for name, fun := range e.functions {
-		if len(fun.Bytecode) > 65535 {
+	// (The functions are looked at in the order of their names, so that
+	// the same script is always refused with the same message.)
+	names := make([]string, 0, len(e.functions))
+	for name := range e.functions {
+		names = append(names, name)
+	}
+	sort.Strings(names)
+	for _, name := range names {
+		if fun := e.functions[name]; len(fun.Bytecode) > 65535 {
 			return fmt.Errorf("the function %s is too large: %d bytes of bytecode, at most 65535 are supported", name, len(fun.Bytecode))
 		}
 	}
